@@ -107,8 +107,32 @@ func loadWorld() (*World, error) {
 	}
 	w.errT = types.NewPointer(fmtPkg.Type("wrapError").Type())
 	// pre-compute the harness classification (read-only afterwards)
+	w.fnName = map[*ssa.Function]string{}
+	w.fnShort = map[*ssa.Function]string{}
+	w.valIdx = map[ssa.Value]int32{}
+	w.fnSlots = map[*ssa.Function]int32{}
 	for fn := range ssautil.AllFunctions(prog) {
 		w.harnessFn[fn] = w.isHarnessSlow(fn)
+		w.fnName[fn] = fn.String()
+		w.fnShort[fn] = shortFn(w.fnName[fn])
+		n := int32(0)
+		for _, p := range fn.Params {
+			w.valIdx[p] = n
+			n++
+		}
+		for _, fv := range fn.FreeVars {
+			w.valIdx[fv] = n
+			n++
+		}
+		for _, b := range fn.Blocks {
+			for _, ins := range b.Instrs {
+				if v, ok := ins.(ssa.Value); ok {
+					w.valIdx[v] = n
+					n++
+				}
+			}
+		}
+		w.fnSlots[fn] = n
 	}
 	return w, nil
 }
